@@ -63,8 +63,10 @@ SPEC = {
             // a subscription is only dropped once it is closed AND every queued message (in particular the BadTimeout
             // status change of an expiry) has been taken by a publish response
             r == (self.state == SubscriptionState::Closed && self.notifications@.len() == 0),'''),
-    'handle_state_result': (None, '''        requires seq_inv(*old(self)),
-            // a notification handed in by tick_monitored_items took the number the handle had issued last
+    'handle_state_result': (None, '''        requires old(self).sequence_number.first == 1,
+            // without a collected notification the handle and the queue are in step ...
+            notification is None ==> seq_inv(*old(self)),
+            // ... and a notification handed in by tick_monitored_items took the number the handle issued last, so the handle is one ahead
             notification is Some ==> notification->Some_0.sequence_number == seq_after(old(self).last_sequence_number)
                 && old(self).sequence_number.next == seq_after(seq_after(old(self).last_sequence_number)),
             // tick only collects notifications in states where these actions are impossible (Closed/Creating give None)
@@ -94,7 +96,9 @@ SPEC = {
                     Some(n) => final(self).notifications@ == old(self).notifications@.push(n),
                     None => final(self).notifications@ == old(self).notifications@,
                 }),
-                // nothing is sent
+                // nothing is sent now, but a notification that was collected from the monitored items is not lost:
+                // it waits in the queue for the next publish request (C21)
+                UpdateStateAction::None => NONE_CLAUSE,
                 _ => final(self).notifications@ == old(self).notifications@,
             },
             // the handle and the queue stay in step, so the next call can rely on seq_inv again
@@ -106,10 +110,25 @@ proof fn canary_actions(s: Subscription)
     requires seq_inv(s), s.last_sequence_number == u32::MAX,
     ensures false,
 {}
+// the precondition of handle_state_result with a collected notification is satisfiable
+proof fn canary_actions_with_notification(s: Subscription, n: NotificationMessage)
+    requires s.sequence_number.first == 1, n.sequence_number == seq_after(s.last_sequence_number),
+        s.sequence_number.next == seq_after(seq_after(s.last_sequence_number)), s.last_sequence_number == 7,
+    ensures false,
+{}
 '''
 
 
-def build(manifest):
+NONE_C21 = """(match notification {
+                    Some(n) => final(self).notifications@ == old(self).notifications@.push(n),
+                    None => final(self).notifications@ == old(self).notifications@,
+                })"""
+# read for C22 only "no keep-alive or status message is added" matters here; whether the collected notification is kept is C21's clause
+NONE_C22 = """(final(self).notifications@ == old(self).notifications@
+                    || (notification is Some && final(self).notifications@ == old(self).notifications@.push(notification->Some_0)))"""
+
+
+def build(manifest, pid=PID):
     sub = Src('server/subscriptions/subscription.rs', manifest)
     hd = Src('core/handle.rs', manifest)
     types = '\n'.join([
@@ -127,7 +146,7 @@ def build(manifest):
     for n in ['ready_to_remove', 'enqueue_notification', 'handle_state_result']:
         t = norm_vis(clean_fn(sub.impl_fn(r'^impl Subscription \{', n)))
         t = re.sub(r'^(\s*)fn ', r'\1pub fn ', t, count=1) if not re.match(r'\s*pub ', t) else t
-        f[n] = splice_contract(t, SPEC[n][1], SPEC[n][0])
+        f[n] = splice_contract(t, SPEC[n][1].replace('NONE_CLAUSE', NONE_C21 if pid == 'C21' else NONE_C22), SPEC[n][0])
     # `DateTime::from(*now)` is the From<DateTimeUtc> conversion: kept as a call of the environment function DateTime::from
     a = Asm()
     a.add('#![feature(allocator_api)]\nuse vstd::prelude::*;\nverus! {\nglobal size_of usize == 8;\n', 'prelude', 'env')
@@ -143,7 +162,7 @@ def build(manifest):
     a.add('}')
     add_proof_fns(a, CANARY, 'canary')
     a.add('}\nfn main() {}\n')
-    return dict(asm=a, pid=PID, short=SHORT, clauses={k: v[1] for k, v in SPEC.items()}, twins={}, witness={},
+    return dict(asm=a, pid=pid, short=SHORT, clauses={k: v[1] for k, v in SPEC.items()}, twins={}, witness={},
                 assumptions=['C22: tick_monitored_items obtains the sequence number of a collected notification from '
                              'self.sequence_number.next() immediately before handle_state_result runs, and collects nothing in the '
                              'Closed/Creating states (call site not extracted: it needs the address space)'])
